@@ -550,6 +550,10 @@ def m_slice_iter(ex, a, callee, canon):
     v = deref(a[0])
     if isinstance(v, (ListV, Arr)):
         return IterV(v.f, True)
+    if isinstance(v, Bytes):
+        items = ex.seq_items(v.s)
+        if items is not None:
+            return IterV([Int(t, "u8") for t in items], True)
     raise Unsupported(f"iter over {v!r}")
 
 
@@ -999,6 +1003,8 @@ def m_unwrap_or_default2(ex, a, callee, canon):
     if o.variant in ("Some", "Ok"):
         return o.f[0]
     ty = generic_arg(callee, 0) or ""
+    if re.match(r"(std::vec::)?Vec<", ty.strip()):
+        return Bytes(z3.Empty(SEQ)) if ty.replace(" ", "").endswith("Vec<u8>") else ListV([])
     d = ex.P.resolve(f"<{ty} as Default>::default")
     if d is None:
         raise Unsupported("Default for " + ty)
@@ -1148,3 +1154,44 @@ def m_u8_try_into_sighash(ex, a, callee, canon):
     if d is None:
         raise Unsupported("TryFrom<u8> for SigHash not found")
     return ex.call_fn(d, a)
+
+
+@model(r"^core::num::<impl (u8|u16|u32|u64|usize)>::saturating_sub$")
+def m_saturating_sub(ex, a, callee, canon):
+    x, y = a
+    return Int(z3.If(z3.ULT(x.t, y.t), z3.BitVecVal(0, x.t.size()), x.t - y.t), x.ty)
+
+
+@model(r"^<.* as Iterator>::any$")
+def m_iter_any(ex, a, callee, canon):
+    while True:
+        x = iter_next(ex, a[0])
+        if x is None:
+            return Bool(False)
+        r = ex.call_closure(a[1], [x])
+        c = r.concrete()
+        if c is None:
+            c = ex.decide(r.t)
+        if c:
+            return Bool(True)
+
+
+@model(r"^<.* as Iterator>::all$")
+def m_iter_all(ex, a, callee, canon):
+    while True:
+        x = iter_next(ex, a[0])
+        if x is None:
+            return Bool(True)
+        r = ex.call_closure(a[1], [x])
+        c = r.concrete()
+        if c is None:
+            c = ex.decide(r.t)
+        if not c:
+            return Bool(False)
+
+
+@model(r"^<&?u8 as (BitAnd|BitOr|BitXor)<&?u8>>::(bitand|bitor|bitxor)$")
+def m_u8_bitop(ex, a, callee, canon):
+    x, y = deref(a[0]), deref(a[1])
+    op = canon.rsplit("::", 1)[1]
+    return Int({"bitand": x.t & y.t, "bitor": x.t | y.t, "bitxor": x.t ^ y.t}[op], "u8")
